@@ -23,7 +23,7 @@ for pid in allp:
         "engine": eng,
         "level_claimed": {"category": c.get("level", "proof"), "text": c.get("claim", ""), "design_ref": "DESIGN.md section 5 %s and section 11" % pid},
         "level_note": COMMON_NOTE + c.get("note", ""),
-        "technique": c.get("technique", "contract-based deductive verification of the real functions (Verus requires/ensures/invariants + ghost lemmas" + ("; Kani full-domain contract harnesses for iterator-based functions)" if c.get("kani") else ")")),
+        "technique": c.get("technique", "contract-based deductive verification of the real functions (Verus requires/ensures/invariants + ghost lemmas" + ("; Kani full-domain contract harnesses on the real functions for iterator-based code and as fallback when a function leaves Verus's fragment; bounded native searches only as counterexample finders and labelled stand-ins)" if c.get("kani") else ")")),
     })
 man = {
     "version": 1,
